@@ -132,16 +132,19 @@ def resolveSels (d : Dict) : List SSel → Except Err (List Sel)
 
 /-! ## serialisation of a selector (`serialize.py:833-874`) -/
 
+/-- `DEFAULTURI == namespaceURI or (not DEFAULTURI and namespaceURI is None)` (:853-855): write the bare name -/
+def plainNs (d : Dict) : NsVal → Bool
+  | .none => match d.get [] with
+    | none => true
+    | some dd => decide (dd = [])
+  | .uri u => match d.get [] with
+    | none => false
+    | some dd => decide (dd = u)
+  | .any => false
+
 def serItem (d : Dict) : Item → Cps
   | .q _ ns name =>
-    -- `DEFAULTURI == namespaceURI or (not DEFAULTURI and namespaceURI is None)` (:853-855)
-    let plain : Bool := match ns, d.get [] with
-      | .none, none => true
-      | .none, some dd => decide (dd = [])
-      | .uri u, some dd => decide (dd = u)
-      | .uri _, none => false
-      | .any, _ => false
-    if plain then name
+    if plainNs d ns then name
     else
       let pre : Cps := match ns with
         | .any => star                                  -- :858-859
@@ -310,29 +313,33 @@ def nsInOrderIndex (s : Sheet) (index : Nat) : Nat :=
     | some j => start + j
     | none => index
 
+/-- where `insertRule` puts a well-formed @namespace rule, or why it refuses (:595-602, 755-807) -/
+def nsPosition (s : Sheet) (idx : Option Nat) (inOrder : Bool) : Except Err Nat :=
+  let index0 := idx.getD s.length
+  if index0 > s.length then .error .indexSizeErr                                            -- :595-602
+  else if inOrder then .ok (nsInOrderIndex s index0)
+  else if (s.drop index0).any Rule.isCharsetOrImport then .error .hierarchyRequestErr       -- :784-791
+  else if (s.take index0).any Rule.isBody then .error .hierarchyRequestErr                    -- :792-807
+  else .ok index0
+
+/-- the rest of the @namespace branch (:809-822) once the position is known -/
+def insertNsAt (s : Sheet) (r : NsRule) (index : Nat) (clean : Bool) : Sheet × Outcome :=
+  -- `rule.prefix in self.namespaces and self.namespaces[rule.prefix] == rule.namespaceURI` (:809-812)
+  if (view s).get r.pfx = some r.uri then (s, .ok none)                     -- doublette: nothing kept (:818-820)
+  else
+    let s1 := insertAt s index (.ns r)
+    if clean then
+      let c := cleanNamespaces s1
+      if c.2 then (c.1, .err .noModificationAllowedErr)                       -- deleteRule raised inside the clean-up
+      else if (r.pfx, r.uri) ∈ view s1 then (c.1, .ok (some index))           -- rule still in cssRules
+      else (c.1, .ok none)                                                    -- cleaned again (:818-820)
+    else (s1, .ok (some index))
+
 /-- `insertRule(rule, index, inOrder, _clean)` for a well-formed @namespace rule OBJECT (:551-571, 755-822) -/
 def insertNs (s : Sheet) (r : NsRule) (idx : Option Nat) (inOrder : Bool) (clean : Bool) : Sheet × Outcome :=
-  let index0 := idx.getD s.length
-  if index0 > s.length then (s, .err .indexSizeErr)                            -- :595-602
-  else
-    let pos : Except Err Nat :=
-      if inOrder then .ok (nsInOrderIndex s index0)
-      else if (s.drop index0).any Rule.isCharsetOrImport then .error .hierarchyRequestErr   -- :784-791
-      else if (s.take index0).any Rule.isBody then .error .hierarchyRequestErr                -- :792-807
-      else .ok index0
-    match pos with
-    | .error e => (s, .err e)
-    | .ok index =>
-      -- `rule.prefix in self.namespaces and self.namespaces[rule.prefix] == rule.namespaceURI` (:809-812)
-      if (view s).get r.pfx = some r.uri then (s, .ok none)                     -- doublette: nothing kept (:818-820)
-      else
-        let s1 := insertAt s index (.ns r)
-        if clean then
-          let c := cleanNamespaces s1
-          if c.2 then (c.1, .err .noModificationAllowedErr)                       -- deleteRule raised inside the clean-up
-          else if (r.pfx, r.uri) ∈ view s1 then (c.1, .ok (some index))           -- rule still in cssRules
-          else (c.1, .ok none)                                                    -- cleaned again (:818-820)
-        else (s1, .ok (some index))
+  match nsPosition s idx inOrder with
+  | .error e => (s, .err e)
+  | .ok index => insertNsAt s r index clean
 
 /-- `CSSNamespaceRule(namespaceURI=u, prefix=p)` (`cssnamespacerule.py:77-83`) -/
 def mkNs (p u : Cps) : NsRule := { pfx := p, uri := u, seq := [.pfx p, .uri u] }
